@@ -35,8 +35,15 @@ def lookupSem (d : DState) (name : String) : State :=
 def setSem (d : DState) (name : String) (s : State) : DState :=
   { d with sems := (name, s) :: d.sems.filter (fun p => p.1 != name) }
 
+/-- Deadline token: `inf`, a non-negative ns value, or a NEGATIVE ns value (a deadline before the epoch).
+    nsync_mu_semaphore_p_with_deadline hands the kernel the epoch for a pre-epoch deadline
+    (nsync_semaphore_futex.c, `if (ts_buf.tv_sec < 0)`), and on the model's clock (ℕ) a negative deadline and
+    deadline 0 are the same "already expired" instant; the clamp itself is `Deadline.futexTimespec`,
+    proved correct in Props/C15.lean. -/
 def parseDl (tok : String) : Option (Option Nat) :=
-  if tok = "inf" then some none else tok.toNat?.map some
+  if tok = "inf" then some none
+  else if tok.startsWith "-" then (match (tok.drop 1).toString.toNat? with | some _ => some (some 0) | none => none)
+  else tok.toNat?.map some
 
 def parseOrd (tok : String) : Option Ord :=
   if tok = "rlx" then some .rlx else if tok = "acq" then some .acq
